@@ -114,7 +114,8 @@ fn generated_case(ctx: &Ctx, ch: &mut Ch) -> Outcome {
         ctx.class("skipped: longer than 4000 bytes");
         return Ok(());
     }
-    let s = match ch.pick(6) {
+    let pick = ch.pick(6);
+    let s = match if prog::perturbation_safe(&p) || pick < 2 { pick } else { 5 } {
         0 | 1 => {
             let mut erased = 0;
             prog::erase(&p.s, ch, &mut erased).flatten()
